@@ -16,6 +16,7 @@ import (
 
 	"cuelang.org/go/internal/par"
 	"cuelang.org/go/internal/robustio"
+	"cuelang.org/go/internal/verifhook"
 	"cuelang.org/go/mod/modfile"
 	"cuelang.org/go/mod/modregistry"
 	"cuelang.org/go/mod/module"
@@ -111,12 +112,14 @@ func (c *Cache) Fetch(ctx context.Context, mv module.Version) (module.SourceLoc,
 	if err != nil {
 		return module.SourceLoc{}, err
 	}
+	verifhook.At("fetch.zipDownloaded")
 
 	unlock, err := c.lockVersion(mv)
 	if err != nil {
 		return module.SourceLoc{}, err
 	}
 	defer unlock()
+	verifhook.At("fetch.locked")
 
 	// Check whether the directory was populated while we were waiting on the lock.
 	_, dirErr := c.downloadDir(mv)
@@ -132,18 +135,21 @@ func (c *Cache) Fetch(ctx context.Context, mv module.Version) (module.SourceLoc,
 	parentDir := filepath.Dir(dir)
 	tmpPrefix := filepath.Base(dir) + ".tmp-"
 
+	verifhook.At("fetch.beforeTmpCleanup")
 	entries, _ := os.ReadDir(parentDir)
 	for _, entry := range entries {
 		if strings.HasPrefix(entry.Name(), tmpPrefix) {
 			RemoveAll(filepath.Join(parentDir, entry.Name())) // best effort
 		}
 	}
+	verifhook.At("fetch.beforeRemoveStaleDir")
 	if dirExists {
 		if err := RemoveAll(dir); err != nil {
 			return module.SourceLoc{}, err
 		}
 	}
 
+	verifhook.At("fetch.afterRemoveStaleDir")
 	partialPath, err := c.cachePath(mv, "partial")
 	if err != nil {
 		return module.SourceLoc{}, err
@@ -167,19 +173,24 @@ func (c *Cache) Fetch(ctx context.Context, mv module.Version) (module.SourceLoc,
 	// because each testscript test starts with a cold module cache on an
 	// antivirus-scanned drive. Retry via robustio to absorb those.
 	// See https://cuelang.org/issue/3413.
+	verifhook.At("fetch.beforePartial")
 	if err := robustio.WriteFile(partialPath, nil, 0666); err != nil {
 		return module.SourceLoc{}, err
 	}
+	verifhook.At("fetch.afterPartial")
 	if err := modzip.Unzip(dir, mv, zipfile); err != nil {
 		if rmErr := RemoveAll(dir); rmErr == nil {
 			os.Remove(partialPath)
 		}
 		return module.SourceLoc{}, err
 	}
+	verifhook.At("fetch.afterUnzip")
 	if err := os.Remove(partialPath); err != nil {
 		return module.SourceLoc{}, err
 	}
+	verifhook.At("fetch.afterRemovePartial")
 	makeDirsReadOnly(dir)
+	verifhook.At("fetch.afterReadOnly")
 	return c.dirToLocation(dir), nil
 }
 
@@ -240,6 +251,7 @@ func (c *Cache) downloadZip1(ctx context.Context, mod module.Version, zipfile st
 	// renameio.WriteToFile. We avoid using that so that we have control over the
 	// names of the temporary files (see the cleanup above) and to avoid adding
 	// renameio as an extra dependency.
+	verifhook.At("zip.afterStaleTmpCleanup")
 	f, err := tempFile(ctx, filepath.Dir(zipfile), filepath.Base(zipfile), 0666)
 	if err != nil {
 		return err
@@ -253,6 +265,7 @@ func (c *Cache) downloadZip1(ctx context.Context, mod module.Version, zipfile st
 
 	// TODO cache the result of GetModule so we don't have to do
 	// an extra round trip when we've already fetched the module file.
+	verifhook.At("zip.afterTempFile")
 	m, err := c.reg.GetModule(ctx, mod)
 	if err != nil {
 		return err
@@ -265,12 +278,15 @@ func (c *Cache) downloadZip1(ctx context.Context, mod module.Version, zipfile st
 	if _, err := io.Copy(f, r); err != nil {
 		return fmt.Errorf("failed to get module zip contents: %v", err)
 	}
+	verifhook.At("zip.afterCopy")
 	if err := f.Close(); err != nil {
 		return err
 	}
+	verifhook.At("zip.afterClose")
 	if err := os.Rename(f.Name(), zipfile); err != nil {
 		return err
 	}
+	verifhook.At("zip.afterRename")
 	// TODO should we check the zip file for well-formedness?
 	// TODO: Should we make the .zip file read-only to discourage tampering?
 	return nil
